@@ -19,7 +19,10 @@ BLOCK = ["p", "div", "span", "blockquote"]
 
 
 def setup(tier):
-    pass
+    from vf.core import HarnessError
+
+    if set(TXT) & set("<>/=\"'\n" + "".join(STYLE + BLOCK) + "classid"):
+        raise HarnessError("text alphabet must be disjoint from the markup characters")
 
 
 def ser(nodes, base=0, pos=None):
@@ -32,7 +35,9 @@ def ser(nodes, base=0, pos=None):
             s += n
             t += n
         else:
-            open_ = f"<{n[0]} class=\"c d\" id='k'>" if (n[0] in BLOCK and len(n[1]) % 2 == 0) else f"<{n[0]}>"
+            # attributes are separated by a line break, not a blank: the text alphabet contains the blank, and the
+            # forced alignment needs every markup character to be foreign to the text
+            open_ = f"<{n[0]}\nclass=\"c\"\nid='k'>" if (n[0] in BLOCK and len(n[1]) % 2 == 0) else f"<{n[0]}>"
             a, b = ser(n[1], base + len(s) + len(open_), pos)
             s += open_ + a + f"</{n[0]}>"
             t += b
